@@ -184,15 +184,30 @@ FN_ORACLES["np.histogram"] = [
     # np.histogram(a, bins=<number of bins>, range=(lo, hi))
     dict(coq="o_histogram_range", ty="list (num A) -> Z -> num A * num A -> list Z * list (num A)", params=["a", "bins", "range"], ptypes=[_VN, _f.INT, _f.tup(_f.NUM, _f.NUM)], ret=_HR),
 ]
+_SY = "frouros/datasets/synthetic.py"
+FN_UNITS += [
+    dict(name="sea_generate_sample", file=_SY, cls="SEA", fn="_generate_sample", params=dict(threshold=_f.NUM, noise=_f.NUM)),
+    dict(name="dummy_generate_sample", file=_SY, cls="Dummy", fn="_generate_sample", params=dict(class_=_f.INT)),
+]
+# NumPy's GLOBAL generator: stateful, every call site is its own uninterpreted value
+FN_ORACLES["np.random.uniform"] = dict(coq="o_random_uniform", ty="Z -> num A -> num A -> Z -> list (num A)", stateful=True, params=["low", "high", "size"], ptypes=[_f.NUM, _f.NUM, "shape1"], ret=_VN)
+FN_ORACLES["np.random.random"] = dict(coq="o_random_random", ty="Z -> num A", stateful=True, params=[], ptypes=[], ret=_f.NUM)
+FN_ORACLES["np.random.randint"] = dict(coq="o_random_randint", ty="Z -> Z -> Z", stateful=True, params=["low"], ptypes=[_f.INT], ret=_f.INT)
 FN_CONSTS = [(_PT, ["MAX_NUM_PERM"])]
+EQ.update({"C20": ["EqData.v"]})
 EQ.update({"C10": ["EqDist.v"]})
 # property -> Eq files that are compiled against GFn.v
 EQ.update({"C13": ["EqPerm.v"]})
 
 
-def translate_fns(repo):
+# which units GFn.v holds when it is generated for one property's equivalence files (all of them for None)
+FN_FOR = {"C13": ("perm_",), "C10": ("dist_",), "C20": ("sea_", "dummy_")}
+
+
+def translate_fns(repo, pid=None):
     """returns (coq text of GFn.v, {unit: error}, [oracle names])"""
-    tr = _f.FnTranslator(repo, FN_UNITS, FN_ORACLES, FN_CONSTS).run()
+    units = [u for u in FN_UNITS if pid is None or u["name"].startswith(FN_FOR.get(pid, ("",)))]
+    tr = _f.FnTranslator(repo, units, FN_ORACLES, FN_CONSTS if pid in (None, "C13") else []).run()
     return tr.emit(), tr.errors, sorted(tr.used_oracles)
 
 
